@@ -36,12 +36,21 @@ RULE = ("Polygons are built by construction in a local frame and then scaled (1e
         "(touching the axis, or 0.01..1e4 sizes away; <=1e2 for the sampling and grid sub-checks while finding "
         "C17-oob-triangle-index is open, <=1e5 afterwards) and a height offset of either sign: "
         "triangles, axis-aligned rectangles, convex polygons (affine images of polygons inscribed in a circle), star-shaped "
-        "polygons with 4-10 vertices and radii 0.15..1 (mostly concave) and rotated/sheared/mirrored concave templates, mostly "
+        "polygons with 4-10 vertices and radii 0.15..1 (mostly concave), quadrilaterals that pass weak rectangle tests "
+        "without being rectangles (isosceles trapezoids with horizontal or vertical bases and 5-60 % taper, quadrilaterals "
+        "with equal perpendicular diagonals and an axis-parallel edge, kites with equal axis-parallel diagonals, rectangles "
+        "with one vertex displaced by <=20 %; on a 1/64 lattice, half of them with power-of-two scale and quarter-integer "
+        "offsets so that edges and diagonals are exact in binary) and rotated/sheared/mirrored concave templates, mostly "
         "not star-shaped (general position: dart, bolt, ell, hook, coil, fork; with collinear vertices: L, U, comb, spiral "
         "- the latter only once finding C17-ear-clipping-collinear is closed; 4-12 vertices); primitive_type csg or mesh (mesh only when it gives 3..32 toroidal "
         "segments). geometry: every one of the 2n vertex orders (n cyclic rotations x 2 orientations) is constructed (mesh "
-        "cases: one order per orientation as mesh, the others as csg) and compared with the exact rational area/centroid/volume; non-trivial = concave or >=5 vertices. sampling: one drawn "
-        "vertex order, raysect RNG seeded from the case, N in {4000, 20000}; non-trivial = >=4 vertices, order rotated or "
+        "cases: one order per orientation as mesh, the others as csg) and compared with the exact rational area/centroid/volume; non-trivial = concave or >=5 vertices. Every voxel is constructed from a drawn container kind (list of lists, list of tuples, list of "
+        "Point2D, C-contiguous float64 (n,2) ndarray, strided ndarray view; grids also one (m,n,2) ndarray): the caller's "
+        "container must be bit-identical after construction, is then shifted and reversed in place by the caller, and "
+        "area/centroid/volume/vertices are re-read (must be unchanged; vertices = the input polygon as a cyclic sequence). "
+        "sampling: one drawn "
+        "vertex order (all 2n orders for the look-alike quadrilaterals, N=20000 for the drawn one and 6000 for the others), "
+        "raysect RNG seeded from the case, N in {4000, 20000}; non-trivial = >=4 vertices, order rotated or "
         "reversed, and the triangles raysect's ear clipping makes for that order differ in area by >10 %. grid: 1-12 "
         "non-overlapping cells (lattice of rectangles / inscribed polygons), constructed with active='all' or a drawn index, "
         "with or without a parent World / transform, then driven through 0-6 drawn state-changing public calls "
@@ -81,6 +90,8 @@ TOLERANCES = {
                    "rounding of the N-term sequential sum, 2 (N+8) u max|f| (1e-9 (|c0|+R) for the quadratic)",
     "inside": "every sample point within 1e-12 x (max |coordinate| + diameter) of the polygon (4500 u: the barycentric "
               "interpolation and the float orientation test both carry a few u x |coordinate|)",
+    "caller-memory": "bit-identical bytes before/after construction; numbers re-read after the caller modified its "
+                     "container must be identical (==) to the first reading",
     "total_volume": "== Python sequential sum of voxel.volume to 1e-12 relative (same arithmetic) and == sum of exact "
                     "volumes within the summed volume bounds",
 }
